@@ -275,7 +275,7 @@ func runC11(c *ctx) {
 			c11Check(c, fmt.Sprintf("corner%d", i), t, false)
 		}
 	}
-	n := c.n(12000, 100000)
+	n := c.n(12000, 400000)
 	for i := 0; i < n; i++ {
 		var g *rgrammar
 		wf := i%3 == 0
